@@ -11,6 +11,7 @@ import json
 import os
 import shutil
 import subprocess
+import sys
 import tempfile
 import time
 
@@ -93,4 +94,96 @@ def run(props, only=None):
     except OSError:
         pass
     print("sensitivity: %d of %d caught" % (sum(r["status"] == "caught" for r in rows), len(rows)))
+    return ok
+
+
+# -- specificity: property-preserving changes must not raise an alarm -----------------------------
+def collect_benign(only=None):
+    items = []
+    for meta in sorted(glob.glob(os.path.join(VERIF, "benign", "*", "meta.json"))):
+        d = os.path.dirname(meta)
+        name = os.path.basename(d)
+        if only and only not in name:
+            continue
+        items.append((json.load(open(meta)).get("property"), name, os.path.join(d, "patch.diff")))
+    return items
+
+
+# which checks drive which source files (a change elsewhere cannot influence a check, so running it proves nothing)
+RELEVANT = {
+    "flow/record/stream.py": ["C03", "C04", "C11", "C16", "C17"],
+    "flow/record/base.py": ["C03", "C04", "C11", "C16", "C17", "C18"],
+    "flow/record/packer.py": ["C03", "C04", "C16", "C17"],
+    "flow/record/jsonpacker.py": ["C03", "C16", "C17"],
+    "flow/record/exceptions.py": ["C03", "C04", "C11", "C16"],
+    "flow/record/utils.py": ["C04", "C11", "C16", "C17"],
+    "flow/record/adapter/sqlite.py": ["C18", "C17"],
+    "flow/record/adapter/avro.py": ["C11", "C16", "C17"],
+    "flow/record/adapter/split.py": ["C16", "C17"],
+    "flow/record/adapter/stream.py": ["C04", "C11", "C16", "C17"],
+    "flow/record/adapter/jsonfile.py": ["C03", "C16", "C17"],
+    "flow/record/tools/rdump.py": ["C16"],
+    "flow/record/selector.py": ["C16"],
+    "flow/record/selector_ast.py": ["C16"],
+}
+
+
+def relevant_props(patch, props):
+    files = [l[6:].strip() for l in open(patch) if l.startswith("+++ b/")]
+    rel = set()
+    for f in files:
+        rel |= set(RELEVANT.get(f, props))
+    return [p for p in props if p in rel]
+
+
+def run_benign_one(name, patch, props, repo="/repo"):
+    """Apply one property-preserving patch to a scratch copy and run the quick check of every property in
+    ``props`` against it.  -> rows [{prop, name, status}] where status is 'silent' (exit 0), 'ALARM' (exit 1)
+    or 'harness-error'."""
+    root = tempfile.mkdtemp(prefix="simfr-ben-", dir=_scratch_root())
+    dst = os.path.join(root, "repo")
+    rows = []
+    try:
+        shutil.copytree(repo, dst, ignore=shutil.ignore_patterns(".git", "__pycache__", "*.pyc", ".pytest_cache"))
+        r = subprocess.run(["patch", "-p1", "-s", "-d", dst, "-i", patch], capture_output=True, text=True)
+        if r.returncode != 0:
+            return [{"prop": "-", "name": name, "status": "patch-failed", "detail": (r.stdout + r.stderr)[-300:]}]
+        for prop in props:
+            t0 = time.time()
+            env = dict(os.environ, VERIF_REPO=dst, VERIF_EVIDENCE_DIR=os.path.join(root, "ev"), VERIF_MINIMISE_S="5", VERIF_REPLAY_DIR=os.path.join(root, "replays"))
+            env.setdefault("VERIF_BUDGET_S", "60")  # over-fitting shows at once; a wall budget keeps 100+ pairs affordable
+            r = subprocess.run([os.path.join(VERIF, "check"), prop, "quick"], capture_output=True, text=True, env=env, timeout=3600)
+            invs = sorted(set(l.split()[1] for l in r.stdout.splitlines() if l.startswith("violation ")))
+            status = {0: "silent", 1: "ALARM", 2: "harness-error"}.get(r.returncode, "exit-%d" % r.returncode)
+            rows.append({"prop": prop, "name": name, "status": status, "invariants": invs, "wall_s": round(time.time() - t0, 1), "tail": r.stdout[-1500:] if status != "silent" else ""})
+    finally:
+        shutil.rmtree(root, ignore_errors=True)
+    return rows
+
+
+def run_specificity(props, only=None):
+    items = collect_benign(only)
+    ok = True
+    rows = []
+    for _prop, name, patch in items:
+        for res in run_benign_one(name, patch, props if os.environ.get("VERIF_SPECIFICITY_ALL") else relevant_props(patch, props)):
+            rows.append(res)
+            print("specificity %-10s under %-4s %-14s %s %ss" % (name, res["prop"], res["status"], ",".join(res.get("invariants", [])), res.get("wall_s", "")))
+            sys.stdout.flush()
+            if res["status"] != "silent":
+                ok = False
+                print("    " + (res.get("detail") or res.get("tail") or "").replace("\n", "\n    "))
+    out = os.path.join(VERIF, "evidence", "specificity.json")
+    try:
+        old = json.load(open(out))["rows"] if only or len(props) < 6 else []
+    except Exception:  # noqa: BLE001
+        old = []
+    names = set((r["prop"], r["name"]) for r in rows)
+    rows_all = sorted([r for r in old if (r["prop"], r["name"]) not in names] + rows, key=lambda r: (r["name"], r["prop"]))
+    try:
+        with open(out, "w") as f:
+            json.dump({"rows": [{k: v for k, v in r.items() if k != "tail"} for r in rows_all], "silent": sum(r["status"] == "silent" for r in rows_all), "total": len(rows_all)}, f, indent=1)
+    except OSError:
+        pass
+    print("specificity: %d of %d (change, check) pairs silent" % (sum(r["status"] == "silent" for r in rows), len(rows)))
     return ok
